@@ -120,13 +120,14 @@ func genBLengthStruct(w *codewriter, _ *golang.ReadWriteContext, varname string)
 }
 
 func genBLengthList(w *codewriter, rwctx *golang.ReadWriteContext, varname string, depth int) {
-	t := rwctx.Type
 	// list header
 	w.f("off += 5")
 
 	// if element is basic type like int32, we can speed up the calc by sizeof(int32) * len(l)
-	if t.ValueType != nil {
-		if sz := category2WireSize[t.ValueType.Category]; sz > 0 { // fast path for less code
+	// the resolved element type: for a typedef'd list t is the typedef reference
+	// and has no ValueType; the slow path would then leave its loop variable unused
+	if vt := rwctx.ValCtx.Type; vt != nil {
+		if sz := category2WireSize[vt.Category]; sz > 0 { // fast path for less code
 			w.f("off += len(%s) * %d", varnameVal(rwctx.IsPointer, varname), sz)
 			return
 		}
